@@ -158,7 +158,7 @@ struct TCase { int kind; double stallAt; };
 static void run_c14t(long cases) {
     Rng r(g_opts.seed * 3011 + (uint64_t)g_opts.shard);
     struct Setting { int h, b; };
-    std::vector<Setting> settings = {{1, 2}, {2, 1}, {1, 1}, {2, 3}};
+    std::vector<Setting> settings = {{1, 2}, {2, 1}, {1, 1}, {2, 3}, {2, 2}, {3, 2}, {4, 1}, {1, 4}};   // the last two: far enough apart for "which of the two time-outs was applied" to be told beyond the slack
     long idx = g_opts.shard * 100000L;
     for (long rep = 0; rep < cases; rep++)
     for (size_t si = 0; si < settings.size(); si++) {
@@ -213,7 +213,12 @@ static void run_c14t(long cases) {
                 case 6: { kn = "second-request-after-idle-gap"; c.send_all(head + body); expect200(kn); if (!key.empty()) break; buf.clear(); lv::msleep((int)(minT * 600)); t0 = lv::now(); c.send_all(head + body); expect200(kn); break; }
                 case 8: { kn = "second-request-straddles-the-connections-age";   // starts before the connection is a time-out old, ends after, but is itself quick
                         c.send_all(head + body); expect200(kn); if (!key.empty()) break; buf.clear();
-                        lv::msleep((int)(minT * 700)); t0 = lv::now(); c.send_all(head); lv::msleep((int)(minT * 600)); c.send_all(body); expect200(kn); break; }
+                        // The idle gap s stays below both time-outs, the request itself (head at s, body at s + d) takes d < B, and s + d passes
+                        // the point "B after the END OF THE PREVIOUS request" by more than one scan period, so that a clock left running from
+                        // there is bound to be seen by a scan.  With time-outs of 1 s the margins for that do not exist: shorter variant there.
+                        if (minT >= 2) { double s = 0.7 * minT, d = B + 0.7 - s; lv::msleep((int)(s * 1000)); t0 = lv::now(); c.send_all(head); lv::msleep((int)(d * 1000)); c.send_all(body); expect200(kn); }
+                        else { lv::msleep((int)(minT * 700)); t0 = lv::now(); c.send_all(head); lv::msleep((int)(minT * 600)); c.send_all(body); expect200(kn); }
+                        break; }
                 case 9: { kn = "body-trickled-past-the-body-timeout";   // every gap is short, the whole request takes too long: the time-out counts from the start of the request
                         c.send_all(head);
                         std::atomic<bool> stopTrickle{false};
